@@ -266,13 +266,21 @@ def sendConfirmedInputsToSpectators (s : P2P) (now : Nat) (confirmed : Frame) : 
       else .ok s
   loop ((confirmed - s.nextSpectatorFrame + 1).toNat) s
 
+/-- What one running endpoint reports about a player: still connected? up to which frame? -/
+def gossipStep (handle : Nat) (acc : Bool × Int) (x : Nat × Endpoint) : Bool × Int :=
+  if !x.2.isRunning then acc
+  else
+    let cs := rget x.2.peerConnectStatus handle
+    (acc.1 && !cs.disconnected, min acc.2 cs.lastFrame)
+
+/-- The reports of all running endpoints about a player, combined (`update_player_disconnects`
+walks the `HashMap` of remotes). -/
+def gossipOf (remotes : List (Nat × Endpoint)) (handle : Nat) : Bool × Int :=
+  remotes.foldl (gossipStep handle) (true, Endpoint.i32Max)
+
 def updatePlayerDisconnects (s : P2P) (now : Nat) : M P2P :=
   (List.range s.numPlayers).foldlM (fun s handle => do
-    let (queueConnected, queueMin) := s.remotes.foldl (fun (qc, qm) (_, e) =>
-      if !e.isRunning then (qc, qm)
-      else
-        let cs := rget e.peerConnectStatus handle
-        (qc && !cs.disconnected, min qm cs.lastFrame)) (true, Endpoint.i32Max)
+    let (queueConnected, queueMin) := gossipOf s.remotes handle
     let lc := rget s.localConnectStatus handle
     let localConnected := !lc.disconnected
     let queueMin := if localConnected then min queueMin lc.lastFrame else queueMin
